@@ -195,6 +195,12 @@ def run_weighted(ctx, fname, force=None):
         prob = make_problem(rng, tiny=tiny)
     if tiny:
         prob['selk'], prob['pos'] = 'all', list(range(prob['n_cond']))
+    bunit = 1.0
+    if fname in ('fit_regress', 'fit_regress_nn') and not tiny and force is None and rng.integers(3) == 0:
+        # basis RDMs in other units than the data (raw squared distances of unscaled measurements are easily 1e5, unit
+        # conversions give 1e-6): the optimal weights are then tiny or huge, the criterion is unchanged
+        bunit = float(10.0 ** int(gen.pick(rng, [-6, -3, 3, 5, 7])))
+        prob['basis'] = prob['basis'] * bunit
     method = gen.pick(rng, ['cosine', 'corr', 'cosine_cov', 'corr_cov'])
     n_sub = len(prob['pos'])
     sk = gen.pick(rng, ['none', 'none', 'matrix']) if method.endswith('_cov') else 'none'  # the fitters document a matrix
@@ -227,7 +233,7 @@ def run_weighted(ctx, fname, force=None):
     if prob['selk'] == 'bootstrap' and len(set(prob['pos'])) < len(prob['pos']):
         ctx.count('bootstrap_selections')
     sig = dict(fitter=fname, method=method, sigma=sk, selection=prob['selk'], normalize=normalize,
-               desc=prob['desc'], n_basis=prob['n_basis'], rank_deficient=bool(tiny))
+               desc=prob['desc'], n_basis=prob['n_basis'], rank_deficient=bool(tiny), basis_unit=bunit)
     wit = lambda **k: dict(basis=prob['basis'], data=prob['data'], pos=prob['pos'], labels=prob['labels'],  # noqa
                            desc=prob['desc'], method=method, sigma_k=sigma, fitter=fname, **k)
     model = ModelWeighted('w', model_rdms(prob))
